@@ -9,6 +9,7 @@
 From Coq Require Import List ZArith Bool Arith.
 Import ListNotations.
 From V Require Import Model.Schem Spec.C18 Proofs.C18.Sound Proofs.C18.Complete Proofs.C18.Examples.
+From V Require Import Model.Placer Proofs.C18.Placer.
 
 (* the dumped connectivity is one: distinct wire ids, every wire driven by a block in-port or a child output pin, read
    by child input pins / block out-ports, and no pin on two wires *)
@@ -91,8 +92,59 @@ Proof. exact (conj ex_addci_rejected ex_addci_not_SchemOK). Qed.
 Example C18_addci_repaired_SchemOK : SchemOK ex_addci_c ex_addci_repaired_l.
 Proof. exact ex_addci_repaired_SchemOK. Qed.
 
+(* ---- the first piece of the PLACER under a theorem (hand-written model Model/Placer.v of Schematic.replaceAsColRow, schematic.py
+   2152-2217; NOT yet tied to the code by a per-run comparison — docs/C18.md).   For EVERY grid of symbols (any number of rows and
+   columns, any cell empty or holding a symbol of ANY width and height, even ragged rows), every list of channels and every setting of
+   the class constants: if the four margins are not negative (the code uses 15 / 5 / 15 / 10) and no channel has a negative number of
+   tracks, then the coordinates the pass assigns make any two distinct symbols of the grid apart in the sense of the validator
+   (apartb: not in one cell, rectangles do not overlap):  (1) all_pairs apartb of the output, (2) any two different positions of the
+   output list, in both orders, (3) any two different non-empty cells (r, c) <> (r', c') inside the shape are both in the output and
+   apart.  No hypothesis on the symbol sizes is needed. *)
+Theorem C18_placer_no_overlap :
+  forall cfg chans nc m, cfg_okb cfg = true -> chans_okb chans = true ->
+    all_pairs apartb (place cfg chans nc m) = true /\
+    (forall i j a b, i <> j -> nth_error (place cfg chans nc m) i = Some a -> nth_error (place cfg chans nc m) j = Some b ->
+       apartb a b = true) /\
+    (forall r c r' c' s s', (c < nc)%nat -> (c' < nc)%nat -> cell_at m r c = Some s -> cell_at m r' c' = Some s' -> (r, c) <> (r', c') ->
+       In (mk_sym cfg chans nc m r c s) (place cfg chans nc m) /\ In (mk_sym cfg chans nc m r' c' s') (place cfg chans nc m) /\
+       apartb (mk_sym cfg chans nc m r c s) (mk_sym cfg chans nc m r' c' s') = true).
+Proof. exact place_no_overlap. Qed.
+
+(* the output is exactly the non-empty cells inside the shape, each with the x of its column and the y of its row (so the theorem
+   above is not about an empty or truncated list) *)
+Theorem C18_placer_output :
+  forall cfg chans nc m a,
+    In a (place cfg chans nc m) <->
+    exists r c s, (r < length m)%nat /\ (c < nc)%nat /\ cell_at m r c = Some s /\ a = mk_sym cfg chans nc m r c s.
+Proof. exact place_In. Qed.
+
+(* corollary: when, in addition, every instance / port symbol of the grid has positive width and height, the validator's geometry
+   clause accepts the placer's output (whatever nets / pins / markers the layout has: chk_geom reads the symbols only) *)
+Theorem C18_placer_chk_geom :
+  forall cfg chans nc m nets pins marks, cfg_okb cfg = true -> chans_okb chans = true -> sizes_posb m = true ->
+    chk_geom (Lay (place cfg chans nc m) nets pins marks) = true.
+Proof. exact place_chk_geom. Qed.
+
+(* non-vacuity on a concrete grid of 3 columns x 2 rows (in-port | And | out-port  /  in-port | empty | pass-through; channels with
+   2, 1, 0 forward tracks; the constants of the pinned tree): the guards hold, the coordinates are these, chk_geom says true *)
+Example C18_placer_example_guards : cfg_okb py_cfg = true /\ chans_okb ex_chans = true /\ sizes_posb ex_m = true.
+Proof. exact ex_place_guards. Qed.
+Example C18_placer_example_3x2 :
+  place py_cfg ex_chans 3 ex_m =
+  [ Sym 0 KIn (Some (EIn 0)) 0 0 0 15 40 20;  Sym 2 KInst (Some (EChild 0)) 0 1 85 15 60 50;  Sym 3 KOut (Some (EOut 0)) 0 2 175 15 40 20;
+    Sym 1 KIn (Some (EIn 1)) 1 0 0 80 45 20;  Sym 4 KPass None 1 2 175 80 10 4 ]%Z.
+Proof. exact ex_place_value. Qed.
+Example C18_placer_example_chk_geom : chk_geom (Lay (place py_cfg ex_chans 3 ex_m) [] [] []) = true.
+Proof. exact ex_place_chk_geom. Qed.
+(* the margin guard is needed: with CELL_MARGIN_HORIZONTAL = -100 symbols of one row of the same grid overlap *)
+Example C18_placer_negative_margin_overlaps : all_pairs apartb (place (PCfg 5 15 (-100) 15 10) ex_chans 3 ex_m) = false.
+Proof. exact ex_place_negative_margin_overlaps. Qed.
+
 Print Assumptions C18_circ_check_sound.
 Print Assumptions C18_check_sound.
 Print Assumptions C18_check_complete.
 Print Assumptions C18_check_decides.
 Print Assumptions C18_reach_sound.
+Print Assumptions C18_placer_no_overlap.
+Print Assumptions C18_placer_output.
+Print Assumptions C18_placer_chk_geom.
